@@ -35,6 +35,76 @@ def witness(ev):
     return "?", -1
 
 
+CHAIN_CFG = "CONSTANTS N = %d\n MaxOps = %d\n WithSplit = %s\nINIT Init\nNEXT Next\nINVARIANTS NoDangling Linked Acyclic MateOK OneParent %s\nVIEW View\nCHECK_DEADLOCK FALSE\n"
+
+
+def chain_script(h):
+    out = ["tk_reset"]
+    for o in h:
+        op = o["op"]
+        if op == "new": out.append(line("tk_new", o["t"], o["s"], o["l"]))
+        elif op in ("append_child", "prune", "mate"): out.append(line("tk_" + op, o["a"], o["b"]))
+        elif op in ("remove_first_child", "remove_last_child", "pop_link"): out.append(line("tk_" + op, o["a"]))
+        elif op == "prune_graft": out.append(line("tk_prune_graft", o["a"], o["b"], o["t"]))
+        elif op == "split": out.append(line("tk_split", o["a"], o["s"], o["l"], o["t"]))
+        elif op == "new_parent": out.append(line("tk_new_parent", o["a"], o["t"]))
+    return out
+
+
+def chain_level(chk, tier, exe):
+    """TokenChain: the token.c primitives as a transition system.  (1) TLC: every forest reachable by <= MaxOps primitives over <= N tokens keeps the
+    chain invariants; (2) one shortest history per reachable forest is replayed on real tokens and TokenChainTrace demands the real pointer graph to be
+    the model's after every primitive."""
+    n, k = (4, 5) if tier == "quick" else (4, 6)
+    mc = [("split", tlc.run("TokenChain", CHAIN_CFG % (4, 6, "TRUE", ""), workers=16, timeout=900, want_printed=False)),
+          ("tails", tlc.run("TokenChain", CHAIN_CFG % (((4, 6) if tier == "quick" else (5, 7)) + ("FALSE", "TailOKRoots")), workers=16, timeout=1100, want_printed=False, heap="16g"))]
+    for nm, r in mc:
+        chk.cov["states"] += r.distinct; chk.cov["transitions"] += r.generated
+        chk.cov["chain_mc_" + nm] = dict(distinct=r.distinct, violated=r.violated)
+        if r.violated:
+            chk.report("chain-model:" + r.violated, "TokenChain (%s configuration): the primitives as modelled do not preserve %s :: %s" % (nm, r.violated, r.cex[:1200]), dict(tlc=r.cex[:6000]))
+    chk.cov["chain_t_mc"] = round(sum(r.wall for _, r in mc), 1)
+    g = tlc.run("TokenChain", CHAIN_CFG % (n, k, "TRUE", "EmitAll"), workers=16, timeout=900)
+    chk.cov["chain_t_gen"] = round(g.wall, 1)
+    hs = g.printed
+    if len(hs) < 1000:
+        raise FrameworkError("TokenChain generated only %d histories" % len(hs))
+    segs = []
+    per = 200
+    for i in range(0, len(hs), per):
+        s = ["seg\ttk"]
+        for h in hs[i:i + per]: s += chain_script(h)
+        segs.append(s)
+    res = run_harness(exe, segs, timeout=60)
+    trace = []; nev = 0
+    for i, r in enumerate(res):
+        evs = [e for e in r["events"] if e.get("e") == "chain" or (e.get("e") == "reset" and e.get("tag") == "chain")]
+        hi = -1; oi = 0
+        for e in evs:
+            if e["e"] == "reset":
+                hi += 1; oi = 0; trace.append(dict(e="reset", h=i * per + hi)); continue
+            h = hs[i * per + hi]
+            if oi < len(h):
+                o = h[oi]; oi += 1
+                trace.append(dict(e="chain", op=o["op"], a=o["a"], b=o["b"], s=o["s"], l=o["l"], t=o["t"], nodes=e["nodes"], got=e["op"])); nev += 1
+        if r["status"] != "ok":
+            kd, f = san_signature(r.get("san", ""))
+            chk.report("chain:%s:%s:%s" % (r["status"], kd, f), "token primitives on a model-generated history ended the process :: %s" % r.get("san", "")[:300].replace("\n", " | "), dict(script=segs[i][-40:]))
+    acc, rej, st, info = tlc.validate_trace("TokenChainTrace", os.path.join(VERIF, "spec", "TokenChainTrace.cfg"), trace, independent=True, max_rejects=8, timeout=900, parallel=12)
+    chk.cov["states"] += st; chk.cov["transitions"] += st
+    chk.add("traces_validated_against_impl", len(hs) - len(rej))
+    chk.cov["chain_t_validate"] = round(info["wall"], 1)
+    chk.cov["chain_histories"] = len(hs); chk.cov["chain_events"] = nev
+    chk.sample(dict(chain_history=hs[len(hs) // 2]))
+    seen = set()
+    for seg, idx in rej:
+        ev = seg[idx]; key = "chain:" + ev["op"]
+        if key in seen: continue
+        seen.add(key)
+        h = hs[seg[0]["h"]]
+        chk.report(key, "after %s in history %s the real tokens' pointer graph %s is not the forest TokenChain prescribes" % (ev["op"], json.dumps(h), json.dumps(ev["nodes"])), dict(history=h, script=chain_script(h), nodes=ev["nodes"]))
+
+
 def run(tier, seed):
     chk = Check("C15", LEVEL, tier, seed)
     rnd = random.Random(seed)
@@ -48,6 +118,7 @@ def run(tier, seed):
         problems.append(("enum", en.cex[:1500]))
     chk.cov["states"] = max(en.distinct, 1); chk.cov["transitions"] = max(en.generated, 1)
     exe = build.build_harness("asan")
+    chain_level(chk, tier, exe)
     corp = docs.corpus()
     table, seqs, seqs3, sim, seqs4 = c02.gen_docs("quick", seed)
     dl = [(n, corp[n]) for n in sorted(corp)] + [("pool:" + k, v.encode()) for k, v in docs.POOL.items()]
@@ -103,8 +174,8 @@ def run(tier, seed):
     chk.cov["states"] += states; chk.cov["transitions"] += states
     chk.cov["evaluations"] = ndump; chk.cov["distinct_nontrivial"] = len(cases_)
     chk.cov["tree_dumps"] = ndump; chk.cov["tree_nodes_checked"] = nnodes
-    chk.cov["rule"] = ("cases = repository corpus + pool documents x %d extension sets x %d formats, plus TLC-generated line sequences (all of length <= 2, sampled length 3, simulated 12-line) with a random "
-                       "format; each case dumps the tree after parse, after each (parse+)export and after three mmd_engine_parse_substring calls on line boundaries" % (4 if tier == "quick" else len(EXTS), 4 if tier == "quick" else 7))
+    chk.cov["rule"] = ("primitive level: every forest TokenChain reaches with <= %d token.c primitives over <= 4 tokens, one shortest history each, replayed on real tokens and compared field by field; tree level: cases = repository corpus + pool documents x %d extension sets x %d formats, plus TLC-generated line sequences (all of length <= 2, sampled length 3, simulated 12-line) with a random "
+                       "format; each case dumps the tree after parse, after each (parse+)export and after three mmd_engine_parse_substring calls on line boundaries" % (5 if tier == "quick" else 6, 4 if tier == "quick" else len(EXTS), 4 if tier == "quick" else 7))
     chk.sample(dict(case=cases_[0][0], ext=cases_[0][2], formats=cases_[0][3])); chk.sample(dict(dump=trace[1]["nodes"][:6], when=trace[1]["when"]))
     seen = {}
     for seg, idx in rejected:
